@@ -226,15 +226,6 @@ __CPROVER_assigns(self->size_, self->heap_ptr, self->heap_capacity, other->size_
 #define BND(c) __CPROVER_assume((c) <= SIZE_BOUND + 1)
 #else
 #define BND(c)
-void h_SV_copy_ctor(void) { SV o; mk(&o, 1); g_osize0 = RAW(&o); g_olive0 = g_live[DATA(&o)]; SV v; v.inl = 0; mk_inl(0); v.heap_ptr = 0; v.heap_capacity = 0; v.size_ = nondet_size_t(); SV_copy_ctor(&v, &o); }
-void h_SV_copy_assign(void) { SV o; SV v; for (int j = 0; j < NBLK; ++j) { g_used[j] = 0; g_freed[j] = 0; g_vacated[j] = 0; g_live[j] = 0; g_cap[j] = 0; g_align[j] = 0; }
-  mk_state(&o, 1); mk_state(&v, 0); g_osize0 = RAW(&o); g_olive0 = g_live[DATA(&o)];
-  g_T_constructed = nondet_int(); g_T_destroyed = nondet_int(); __CPROVER_assume(g_T_constructed < (1u << 30) && g_T_destroyed < (1u << 30)); g_allocs = 0; g_frees = 0;
-  g_size0 = RAW(&v); g_inl0 = ISINL(&v); g_oldheap = v.heap_ptr; g_c0 = g_T_constructed; g_d0 = g_T_destroyed; SV_copy_assign(&v, &o); }
-void h_SV_move_assign(void) { SV o; SV v; for (int j = 0; j < NBLK; ++j) { g_used[j] = 0; g_freed[j] = 0; g_vacated[j] = 0; g_live[j] = 0; g_cap[j] = 0; g_align[j] = 0; }
-  mk_state(&o, 1); mk_state(&v, 0); g_osize0 = RAW(&o);
-  g_T_constructed = nondet_int(); g_T_destroyed = nondet_int(); __CPROVER_assume(g_T_constructed < (1u << 30) && g_T_destroyed < (1u << 30)); g_allocs = 0; g_frees = 0;
-  g_size0 = RAW(&v); g_inl0 = ISINL(&v); g_oldheap = v.heap_ptr; g_c0 = g_T_constructed; g_d0 = g_T_destroyed; SV_move_assign(&v, &o); }
 #endif
 static void mk_inl(BlkH h) { g_cap[h] = KN; g_align[h] = ALIGNOF_T; g_freed[h] = 0; g_live[h] = 0; g_used[h] = 1; g_vacated[h] = 0; }
 static void mk_state(SV* v, BlkH inl);
